@@ -161,6 +161,39 @@ def m_opt_take(interp, fn, args, st, site, frame):
     return out
 
 
+def m_opt_take_if(interp, fn, args, st, site, frame):
+    """opt.take_if(pred): `if opt.as_mut().map_or(false, pred) { opt.take() } else { None }`"""
+    a = args[0]
+    if len(args) != 2 or not isinstance(a, Ref):
+        return None
+    out = []
+    for (v, st2) in opt_cases(interp, a, st, "opt@" + site):
+        if v.variant == 0:
+            out.append((NONE, st2))
+            continue
+        st2 = st2.fork()
+        cell = ("h", "take-if-item", site, frame.depth)
+        st2.heap[cell] = v.fields[0]
+        r = _call_fnlike(interp, args[1], [Ref(cell, (), True)], st2, frame, site, "take_if")
+        if r is None:
+            return None
+        for (b, st3) in r:
+            cases = _as_bool_cases(interp, b, st3)
+            if cases is None:
+                return None
+            for (yes, st4) in cases:
+                st4.heap.pop(cell, None)
+                if not yes:
+                    out.append((NONE, st4))
+                    continue
+                base = st4.heap.get(a.addr)
+                st4.heap[a.addr] = interp.set_at(base, a.path, NONE)
+                if interp.is_tracked(a.addr):
+                    st4.effect(("write", a.addr, interp.path_names(st4, a.addr, a.path), "None"))
+                out.append((v, st4))
+    return out
+
+
 def m_opt_replace(interp, fn, args, st, site, frame):
     """opt.replace(v): the old value is returned, Some(v) is stored (logged like an assignment to the place)"""
     a = args[0]
@@ -1405,8 +1438,8 @@ def m_from_fn_next(interp, fn, args, st, site, frame):
 
 
 def m_iter_find_map_loop(interp, fn, args, st, site, frame):
-    """find_map over a non-concrete iterator: the first Some the closure returns, None at exhaustion"""
-    if len(args) != 2 or (isinstance(args[0], Adt) and args[0].name.startswith("it:")):
+    """find_map: the first Some the closure returns, None at exhaustion (concrete iterators are stepped by their own next)"""
+    if len(args) != 2:
         return None
 
     def step(item, s):
@@ -1419,6 +1452,39 @@ def m_iter_find_map_loop(interp, fn, args, st, site, frame):
                 out.append(("continue", s3) if o.variant == 0 else ("yield", some(o.fields[0]), s3))
         return out
     return _adaptor_loop(interp, fn, args[0], st, site, frame, step, lambda s: NONE)
+
+
+def m_iter_try_fold_loop(interp, fn, args, st, site, frame):
+    """try_fold(init, f) with f returning ControlFlow: `let mut acc = init; for x in it { match f(acc, x) { Continue(a) => acc = a,
+    Break(b) => return Break(b) } } Continue(acc)` - run as that loop; only the ControlFlow result type is modelled"""
+    full = fn.get("rfull") or fn.get("full") or ""
+    if len(args) != 3 or not re.search(r"Iterator>::try_fold::<.*std::ops::ControlFlow<", full):
+        return None
+    st = st.fork()
+    acc = ("h", "tryfold-acc", site, frame.depth)
+    st.heap[acc] = args[1]
+
+    def step(item, s):
+        r = _call_fnlike(interp, args[2], [s.heap[acc], item], s, frame, site, "try_fold")
+        if r is None:
+            return [None]
+        out = []
+        for (v, s2) in r:
+            v = interp.concretize(v, s2)
+            if not (isinstance(v, Adt) and v.name == CF):
+                return [None]
+            if v.variant == 0:
+                s2 = s2.fork()
+                s2.heap[acc] = v.fields[0]
+                out.append(("continue", s2))
+            else:
+                out.append(("yield", v, s2))
+        return out
+    res = _adaptor_loop(interp, fn, args[0], st, site, frame, step, lambda s: Adt(CF, 0, (s.heap.get(acc, UNIT),), "Continue"))
+    if res is not None:
+        for (_v, s_) in res:
+            s_.heap.pop(acc, None)
+    return res
 
 
 def m_from_fn_collect(interp, fn, args, st, site, frame):
@@ -1563,6 +1629,7 @@ BASE_MODELS = [
     (r"^std::option::Option::<.*>::is_some$|^std::option::Option::<.*>::is_none$", m_opt_is_some),
     (r"^std::option::Option::<.*>::as_ref$|^std::option::Option::<.*>::as_mut$", m_opt_as_ref),
     (r"^std::option::Option::<.*>::take$", m_opt_take),
+    (r"^std::option::Option::<.*>::take_if::<", m_opt_take_if),
     (r"^std::option::Option::<.*>::or$", m_opt_or),
     (r"^std::option::Option::<.*>::replace$", m_opt_replace),
     (r"^std::result::Result::<.*>::err$", m_res_err),
@@ -1610,6 +1677,7 @@ BASE_MODELS = [
     (r"as std::ops::Fn(Once|Mut)?<.*>>::call(_once|_mut)?$", m_fn_call),
     (r"^std::iter::Iterator::fold$|as std::iter::Iterator>::fold(::<.*>)?$", m_iter_fold),
     (r"as std::iter::Iterator>::(fold|for_each)(::<.*>)?$", m_iter_fold_loop),
+    (r"as std::iter::Iterator>::try_fold::<", m_iter_try_fold_loop),
     (r"as std::iter::Iterator>::(find|any|all|position)(::<.*>)?$", m_iter_find_loop),
     (r"as std::iter::Iterator>::find_map(::<.*>)?$", m_iter_find_map_loop),
     (r"^std::collections::HashMap::<.*>::entry$", m_map_entry),
